@@ -746,20 +746,45 @@ def _monitor(case: dict, impl: dict) -> list[Violation]:
     for i, e in enumerate(ev):
         if e[0] != 'resume':
             continue
-        k, c, f0 = e[1], e[2], e[3]
+        k, c, f0 = e[1], e[2], list(e[3])
         end = len(ev)
+        base = [(i, list(f0))]           # (event index, fields expected from there on)
         for j in range(i + 1, len(ev)):
             x = ev[j]
-            # the window ends at the next user / peer action on k.  A change of the block list / the shares is a user
-            # action on the uploads it covers (also one made just before the call, whose re-evaluation is still being
-            # carried out: `shares-done`), EXCEPT for an upload the user aborted (the user's abort is not undone by
-            # blocking / unblocking the peer or unsharing / resharing the file) or removed
-            if x[0] in ('requeue', 'call', 'preq', 'peerfail', 'upfail') and x[1] == k:
+            # The window ends at the next action of the user on k, or when the peer legitimately re-queues it (a transfer
+            # request that is accepted).  A change of the block list / the shares is a user action on the uploads it
+            # covers (also one made just before the call, whose re-evaluation is still being carried out:
+            # `shares-done`), EXCEPT for an upload the user aborted (the user's abort is not undone by blocking /
+            # unblocking the peer or unsharing / resharing the file) or removed.
+            if x[0] in ('requeue', 'call') and x[1] == k:
+                end = j
+                break
+            if x[0] == 'preq' and x[1] == k and x[2]:
                 end = j
                 break
             if x[0] in ('shares', 'shares-done') and k in x[2] and c == 'pause':
                 end = j
                 break
+            # Other peer messages for k are not a re-queue: the window goes on, with the direct effect of the message
+            # (outside the property) taken into the expected fields: PeerTransferQueueFailed makes a PAUSED download
+            # FAILED with the peer's reason, PeerUploadFailed resets remotely_queued, a refused transfer request changes
+            # nothing.
+            if x[0] == 'peerfail' and x[1] == k and x[3] == 'FAILED' and x[2] != 'FAILED':
+                f0 = list(f0)
+                f0[0], f0[5] = 'FAILED', 'File not shared.'
+                base.append((j, f0))
+            if x[0] == 'upfail' and x[1] == k:
+                f0 = list(f0)
+                f0[1] = False
+                base.append((j, f0))
+
+        def expected(at):
+            cur = base[0][1]
+            for j, f in base:
+                if j < at:
+                    cur = f
+            return cur
+
         # task activity for k inside (i, end)
         names = set()
         for x in ev:
@@ -788,8 +813,9 @@ def _monitor(case: dict, impl: dict) -> list[Violation]:
         # fields
         for s in snaps:
             if i < s['at'] <= end and k < len(s['fields']) and not (end < len(ev) and s['at'] > end):
-                if s['fields'][k] != f0:
-                    diff = {FIELDS[n]: (a, b) for n, (a, b) in enumerate(zip(f0, s['fields'][k])) if a != b}
+                want = expected(s['at'])
+                if s['fields'][k] != want:
+                    diff = {FIELDS[n]: (a, b) for n, (a, b) in enumerate(zip(want, s['fields'][k])) if a != b}
                     add('C06-field-changed-after-return', f'fields of transfer {k} changed after {c} returned: {diff}',
                         {'at_event': s['at']}, 'unchanged')
                     break
@@ -1135,16 +1161,16 @@ DIRECTED = [
     {'kind': 'directed-failed-retry-delivered-preq', 'slots': 2, 'ops': [
         ['addFailed', 0, 0], ['net', 0, 'ok', False, 0.3], ['preq', 0, 0.3], ['call', 0, 'abort', 1, [['preq', 1]], 0.3],
         ['net', 0, 'ok', False, 0.3], ['wait', 1.0]]},
-    # an upload aborted because its peer was blocked is re-queued by the re-evaluation after the unblock; the user removes
-    # it while that re-evaluation is being carried out: nothing may change for it after remove returned
-    # (fixes/C06-shares-requeue-removed.md)
-    {'kind': 'directed-unblock-requeue-vs-remove', 'slots': 2, 'model': False, 'ops': [
-        ['addUpload', 0, 0], ['block', 0, [], 0.3], ['unblock', 0, [[0, 'remove', 0]], 0.3], ['wait', 1.0]]},
     # the user aborts an upload; blocking and unblocking the peer / unsharing and resharing the file must not bring it back
     {'kind': 'directed-abort-upload-block-unblock', 'slots': 2, 'model': False, 'ops': [
         ['addUpload', 0, 0], ['call', 0, 'abort', None, [], 0.3], ['block', 0, 0.3], ['unblock', 0, 0.3],
         ['net', 0, 'transferring', False, 0.3], ['unshare', 0, 0.3], ['reshare', 0, 0.3], ['net', 0, 'transferring', False, 0.3],
         ['wait', 1.0]]},
+    # an upload aborted because its peer was blocked is re-queued by the re-evaluation after the unblock; the user removes
+    # it while that re-evaluation is being carried out: nothing may change for it after remove returned
+    # (fixes/C06-shares-requeue-removed.md)
+    {'kind': 'directed-unblock-requeue-vs-remove', 'slots': 2, 'model': False, 'ops': [
+        ['addUpload', 0, 0], ['block', 0, [], 0.3], ['unblock', 0, [[0, 'remove', 0]], 0.3], ['wait', 1.0]]},
 ]
 
 
